@@ -101,6 +101,15 @@ fn fp_accepted(bytes: &[u8], key: Option<&stun_rs::HMACKey>) -> (bool, &'static 
         }
         outcome = "attribute-absent";
     }
+    // a validating decoder stays one whatever other options it was built with
+    for (unknown_data, not_ignore) in [(true, false), (false, true), (true, true)] {
+        let o2 = DecOpts { unknown_data, not_ignore, ..opts.clone() };
+        if let Ok((m, _)) = lib_decode(bytes, &o2) {
+            if m.attributes().iter().any(is_fp) {
+                return (true, "validated-decode-with-further-options-accepts");
+            }
+        }
+    }
     if let Ok((m, _)) = lib_decode(bytes, &DecOpts::plain()) {
         match m.attributes().iter().find(|a| is_fp(a)) {
             Some(StunAttribute::Fingerprint(f)) => {
